@@ -61,7 +61,8 @@ CallsOK(Q) ==
               \A j \in DOMAIN oc : \A k \in DOMAIN oc : (j < k /\ oc[j][1] = C.cbs[i].id) => oc[k][1] # C.cbs[i].rm
 EventsOK(Q) == /\ SameBag(Q.evs, CanonE(E.obs.evs))
                /\ CallsOK(Q)
-               /\ ((\A i \in DOMAIN C.cbs : C.cbs[i].id \in RmTargets => ~C.cbs[i].coro) \/ E.o # "recv" => Len(Q.tasks) = E.obs.ntasks)
+               /\ (((\A i \in DOMAIN C.cbs : C.cbs[i].id \in RmTargets => ~C.cbs[i].coro) \/ E.o # "recv") /\ E.obs.exact_tasks
+                      => Len(Q.tasks) = E.obs.ntasks)
                \* the statements of C16 on the observed events themselves
                /\ Hist[1]
                /\ LastIsCurrent(ObsMirror, Hist[2])
